@@ -12,15 +12,23 @@ Tie     (T) translator: declaration order of dependency/output variants and fiel
         (--file and stdin); what was imported must be the value the text was emitted from when the model hands the
         clean text to the parser, and otherwise what `import --file` makes of the model's string.
         (D) documents: `export(import(V)) = V` modulo name and list order for generated documents V (C14_import_export).
+        (W) export file: export.rs is re-read (lib/c14_strings.extract_export_write: `fs::write(path, export_output)` fed from the one
+        string that also goes to stdout); one traced export per run gives the open(2) flags of the export path (O_CREAT|O_TRUNC, as
+        `ExportFile.fsWrite` assumes); for every `export --file` of the run `pipedata writefile` predicts the file content from what
+        the path held and the document - once as the model of the code (`writeFile`: the document) and once as open+write_all with the
+        observed flags (`openWrite`) - and both are compared with the bytes found in the file.
 Oracle  independent of the model, on the real command output only: second export identical to the first
         except for the name (json and yaml, raw text), every other pipeline's export unchanged (the source pipeline
         included), import over an existing name refused without --overwrite with everything unchanged, accepted with it.
         Channels: export --file -> import --file | stdin, and export to stdout piped into import.
+        Export path: `export --file P` with P absent / empty / shorter / equally long / longer (bigger pipeline, same pipeline before an
+        edit, other format) / garbage / read-only / symbolic link / directory: the bytes of P are the document `export` prints to
+        stdout, `import --file P` succeeds and re-exports equal up to the name; a directory is refused without damage.
 Strings every string-valued field (step name, command, generic command, sqlite query, regex, parameter key and value,
         paths, recorded lines, map keys, url headers) is drawn from the structured generator of lib/c14_strings.py; what
         the command line cannot carry is injected by importing a generated JSON document first.
 """
-import hashlib, json, os, re, sqlite3, time
+import hashlib, json, os, re, shutil, sqlite3, time
 from common import Check, run_lines, shrink, REPO, VERIF
 from xvcbin import Sandbox
 import pipe_common as pc
@@ -277,6 +285,10 @@ def gen_cli_strings(rng, idx):
     if rng.random() < 0.3 and names:
         ops.append(('update', p, rng.choice(names), cs.gen_field(rng, 'command', 'cli'), None))
     ops += gen_roundtrips(rng, p, [p], rng.choice([2, 3, 3, 4]))
+    if rng.random() < 0.4:
+        taken = [p] + [op[2] for op in ops if op[0] == 'roundtrip']
+        fmt = rng.choice(['yaml', 'yaml', 'json'])
+        ops.append(('xfile', p, rng.choice([x for x in PIPE_NAMES if x not in taken]), fmt, 'w.' + fmt, gen_pre(rng)))
     return {'id': idx, 'runnable': False, 'git': False, 'ops': ops, 'family': 'cli-strings'}
 
 
@@ -303,7 +315,80 @@ def gen_doc_scenario(rng, idx, order):
     p = rng.choice(PIPE_NAMES)
     doc = cs.gen_doc(rng, order, p)
     ops = [('inject', p, doc)] + gen_roundtrips(rng, p, [p], rng.choice([3, 4, 4, 5]))
+    if rng.random() < 0.4:
+        taken = [p] + [op[2] for op in ops if op[0] == 'roundtrip']
+        fmt = rng.choice(['yaml', 'yaml', 'json'])
+        ops.append(('xfile', p, rng.choice([x for x in PIPE_NAMES if x not in taken]), fmt, 'w.' + fmt, gen_pre(rng)))
     return {'id': idx, 'runnable': False, 'git': False, 'ops': ops, 'family': 'document'}
+
+
+def gen_pre(rng, directory=True):
+    """the state of the export path before `export --file`"""
+    pool = ['absent', 'empty', 'shorter', 'equal', 'longer-tail', 'longer-tail', 'longer-doc', 'longer-doc', 'longer-doc', 'other-format', 'other-format',
+            'garbage', 'symlink', 'symlink-dangling'] + (['readonly'] if os.geteuid() == 0 else []) + (['directory'] if directory else [])
+    return rng.choice(pool)
+
+
+def gen_export_path(rng, idx):
+    """the pre-existing state of the export path as a dimension: `export --file` to paths that are absent / empty / hold a shorter, equally
+    long or LONGER document (of a bigger pipeline, of the same pipeline before an edit, in the other format), garbage, are read-only, a
+    symbolic link, a directory; sequences export -> edit (remove last / first step, shorten a command) -> export to the SAME path -> import."""
+    p, big = rng.sample(PIPE_NAMES, 2)
+    ops, names = [('new', p, None)], []
+    while len(names) < rng.choice([2, 3, 3, 4]):
+        n = pick(rng, STEP_NAMES_PLAIN, STEP_NAMES_WILD, w=(3, 1))
+        if n not in names:
+            names.append(n)
+    for i, s_ in enumerate(names):
+        cmd = rng.choice([pick(rng, COMMANDS_PLAIN, COMMANDS_WILD), cs.gen_field(rng, 'command', 'cli'), 'echo ' + 'long ' * rng.choice([3, 10, 30])])
+        ops.append(('step', p, s_, cmd, rng.choice([None, None, 'always', 'never'])))
+        deps = []
+        if i and rng.random() < 0.5: deps.append(pc.Dep('Step', name=rng.choice(names[:i])))
+        if rng.random() < 0.5: deps.append(pc.Dep('File', path=rng.choice(['a.txt', 'b c.txt', 'd/x.dat', 'édir/ü.txt'])))
+        if rng.random() < 0.3: deps.append(pc.Dep('Generic', generic_command=cs.gen_field(rng, 'generic', 'cli')))
+        if deps: ops.append(('dep', p, s_, deps))
+        if rng.random() < 0.4: ops.append(('out', p, s_, [pc.Out(rng.choice(['File', 'Metric', 'Image']), f'out{i}{rng.choice([".txt", ".json", ".png"])}')]))
+    has_big = rng.random() < 0.6
+    if has_big:
+        ops.append(('new', big, None))
+        for i in range(rng.choice([3, 4, 6])):
+            ops.append(('step', big, f'b{i}', 'echo ' + 'a rather long command line ' * rng.choice([1, 2, 4]), None))
+    fresh = [x for x in PIPE_NAMES if x not in (p, big)]
+    rng.shuffle(fresh)
+    live, nslot = list(names), 0
+
+    def slot(fmt):
+        nonlocal nslot
+        nslot += 1
+        return f's{nslot}.' + rng.choice([fmt, fmt, fmt, 'txt', 'yaml' if fmt == 'json' else 'json'])
+    for _ in range(rng.choice([2, 3, 3, 4])):
+        if len(fresh) < 4:
+            break
+        fmt = rng.choice(['yaml', 'yaml', 'json'])
+        pat = rng.choice(['edit', 'edit', 'edit', 'bigger', 'cross-format', 'state', 'state'])
+        if pat == 'edit' and live:
+            sl = slot(fmt)
+            ops.append(('xfile', p, fresh.pop(), fmt, sl, rng.choice(['absent', 'absent', gen_pre(rng, False)])))
+            for _e in range(rng.choice([1, 1, 2])):
+                e = rng.choice(['rm-last', 'rm-last', 'rm-first', 'shorten']) if len(live) > 1 else 'shorten'
+                if e == 'shorten':
+                    ops.append(('update', p, rng.choice(live), rng.choice(['x', ':', 'true', '']), None))
+                else:
+                    ops.append(('rmstep', p, live.pop(-1 if e == 'rm-last' else 0)))
+                if len(fresh) > 1:
+                    ops.append(('xfile', p, fresh.pop(), fmt, sl, None))
+        elif pat == 'bigger' and has_big:
+            sl = slot(fmt)
+            ops.append(('xfile', big, fresh.pop(), fmt, sl, 'absent'))
+            ops.append(('xfile', p, fresh.pop(), fmt, sl, None))
+        elif pat == 'cross-format':
+            sl = f's{nslot + 1}.txt'; nslot += 1
+            f1, f2 = rng.choice([('json', 'yaml'), ('json', 'yaml'), ('yaml', 'json')])
+            ops.append(('xfile', p, fresh.pop(), f1, sl, 'absent'))
+            ops.append(('xfile', p, fresh.pop(), f2, sl, None))
+        else:
+            ops.append(('xfile', rng.choice([p, big]) if has_big else p, fresh.pop(), fmt, slot(fmt), gen_pre(rng)))
+    return {'id': idx, 'runnable': False, 'git': False, 'ops': ops, 'family': 'export-path'}
 
 
 def scenario_strings(sc):
@@ -373,6 +458,78 @@ def yaml_stdout_ends_in_keep_scalar(text):
     return text.endswith('\n\n\n')
 
 
+GHOST_YAML = '- name: ghost of an earlier export\n  command: echo removed\n  invalidate: Always\n  dependencies: []\n  outputs: []\n'
+GHOST_JSON = {'command': 'echo removed', 'dependencies': [], 'invalidate': 'Always', 'name': 'ghost of an earlier export', 'outputs': []}
+PRE_STATES = ['absent', 'empty', 'shorter', 'equal', 'longer-tail', 'longer-doc', 'other-format', 'garbage', 'readonly', 'symlink', 'symlink-dangling', 'directory']
+
+
+def longer_document(doc, fmt):
+    """a valid document of the same pipeline with one more trailing step: what the path holds when the pipeline was exported before its
+    last step was removed (YAML: `doc` is a prefix of it)"""
+    if fmt == 'yaml':
+        return (doc[:-len('steps: []\n')] + 'steps:\n' if doc.endswith('\nsteps: []\n') else doc) + GHOST_YAML
+    try:
+        j = json.loads(doc)
+        j['steps'] = j.get('steps', []) + [GHOST_JSON]
+        return json.dumps(j, indent=2, sort_keys=True, ensure_ascii=False)
+    except ValueError:
+        return doc + doc
+
+
+def prepare_path(path, pre, doc, other_doc, fmt):
+    """bring `path` into the state `pre` relative to the document that is about to be exported there"""
+    if os.path.islink(path) or os.path.isfile(path):
+        os.chmod(path, 0o644) if not os.path.islink(path) else None
+        os.unlink(path)
+    elif os.path.isdir(path):
+        shutil.rmtree(path)
+    for extra in (path + '.target', path + '.nowhere'):
+        if os.path.lexists(extra):
+            os.unlink(extra)
+    d = doc.encode()
+    longer = longer_document(doc, fmt).encode()
+    content = {
+        'empty': b'',
+        'shorter': (b"version: 1\nname: t\nworkdir: ''\nsteps: []\n" if fmt == 'yaml' else b'{"name":"t","steps":[],"version":1,"workdir":""}'),
+        'equal': bytes(ord('x') if chr(b).isalnum() else b for b in d),
+        'longer-tail': d + (GHOST_YAML.encode() if fmt == 'yaml' else b'\n' + d[len(d) // 2:] + b'\n'),
+        'longer-doc': longer, 'readonly': longer, 'symlink': longer,
+        'other-format': other_doc.encode() + b'\n' * max(0, len(d) + 9 - len(other_doc.encode())),
+        'garbage': (b'\x00\xff{]: garbage [\n\t' * (len(d) // 8 + 3))[:2 * len(d) + 17],
+    }
+    if pre == 'shorter' and len(content['shorter']) >= len(d):
+        content['shorter'] = d[:len(d) // 2]
+    if pre in ('absent',):
+        return
+    if pre == 'directory':
+        os.makedirs(path)
+        with open(os.path.join(path, 'keep.txt'), 'w') as h:
+            h.write('content of the directory\n')
+        return
+    if pre == 'symlink-dangling':
+        os.symlink(path + '.nowhere', path); return
+    target = path + '.target' if pre == 'symlink' else path
+    with open(target, 'wb') as h:
+        h.write(content[pre])
+    if pre == 'symlink':
+        os.symlink(target, path)
+    if pre == 'readonly':
+        os.chmod(path, 0o444)
+
+
+def path_state(path):
+    """(kind, content read through the path or None, detail)"""
+    if os.path.isdir(path) and not os.path.islink(path):
+        return ('dir', None, tuple(sorted((n, open(os.path.join(path, n), 'rb').read()) for n in os.listdir(path) if os.path.isfile(os.path.join(path, n)))))
+    kind = 'symlink' if os.path.islink(path) else 'file' if os.path.exists(path) else 'absent'
+    try:
+        with open(path, 'rb') as h:
+            data = h.read()
+    except OSError:
+        data = None
+    return (kind if data is not None or kind == 'symlink' else 'absent', data, os.readlink(path) if kind == 'symlink' else None)
+
+
 class Real:
     """executes ops; records per op: rc, and for exports the raw text"""
 
@@ -383,6 +540,7 @@ class Real:
         self.oracle = []         # oracle failures (strings + detail)
         self.nfile = 0
         self.counts = {}         # generator / exclusion counters, merged into the evidence by `judge`
+        self.writes = []         # per `export --file`: what the path held, the document, what it holds afterwards (stream export-file)
 
     def export(self, p, fmt='json', to_file=False):
         if to_file:
@@ -455,6 +613,8 @@ class Real:
                 self.inject(op[1], op[2])
             elif k == 'roundtrip':
                 self.roundtrip(*op[1:])
+            elif k == 'xfile':
+                self.xfile(*op[1:])
             elif k == 'refuse':
                 self.refuse(*op[1:])
         return self
@@ -510,10 +670,16 @@ class Real:
                 self.fail(f'import of the export of {src!r} as {dst!r} ({fmt}, {via}, overwrite={ow}) failed', rc=rc2, stderr=err2[-400:],
                           exported=text1[:1500])
             self.trace.append(('roundtrip', {'export1': text1, 'fmt': fmt, 'import_ok': False, 'export2': None, 'list': rows0})); return
+        text2, x2, rows1 = self._after_import(src, dst, fmt, via, text1, x1, names0, snap0)
+        self.trace.append(('roundtrip', {'export1': text1, 'fmt': fmt, 'import_ok': True, 'export2': text2, 'list': rows1}))
+
+    def _after_import(self, src, dst, fmt, via, text1, x1, names0, snap0, watched=None):
+        """the part of the oracle that follows an accepted import of `src`'s export as `dst`"""
+        other = 'yaml' if fmt == 'json' else 'json'
         names1, rows1, _ = self.names()
         rc3, text2, err3, f2 = self.export(dst, fmt, to_file=True)
         x2 = self.export(dst, other)[1]
-        snap1 = self.snapshot(names1)
+        snap1 = self.snapshot(names1 if watched is None else [n for n in watched if n in names1])
         # (1) identical except for the name, in the format that was imported and in the other one
         for f, t1, t2 in ((fmt, text1, text2), (other, x1, x2)):
             msg = same_modulo_name(f, t1, t2, src, dst)
@@ -523,10 +689,72 @@ class Real:
         # (2) the other pipelines
         if names1.count(dst) != 1 or sorted(n for n in names1 if n != dst) != sorted(n for n in names0 if n != dst):
             self.fail(f'pipeline list after importing {dst!r}: {names1}, before: {names0}')
-        for n in names0:
+        for n in (names0 if watched is None else watched):
             if n != dst and snap0.get(n) != snap1.get(n):
                 self.fail(f'importing {dst!r} changed the export of pipeline {n!r}', before=(snap0.get(n) or '')[:1500], after=(snap1.get(n) or '')[:1500])
-        self.trace.append(('roundtrip', {'export1': text1, 'fmt': fmt, 'import_ok': True, 'export2': text2, 'list': rows1}))
+        return text2, x2, rows1
+
+    # -- export --file onto a path with a history --------------------------------------------------------
+    def xfile(self, src, dst, fmt, slot, pre):
+        """`export --file P` where P (`slot`, kept between the ops of one scenario) is first brought into state `pre` (None: left as the
+        earlier ops left it), then `import --file P` as `dst`.  Demanded: the bytes of P are the document `export` prints to stdout for
+        the same pipeline (the independent reference: another code path, no file involved), the import succeeds, the export of `dst`
+        equals that of `src` up to the name, nothing else changes.  A directory at P: refused, directory and pipelines untouched."""
+        names0, rows0, list0 = self.names()
+        if src not in names0 or dst in names0:          # preconditions of the probe (only unmet in shrunk scenarios)
+            self.trace.append(('xfile', None)); return
+        watched = [src] + [n for n in names0 if n != src][:3]     # "the others are untouched" is every round trip's business; here: the source + 3
+        snap0 = self.snapshot(watched)
+        rcd, outd, errd, _ = self.export(src, fmt)
+        if rcd != 0 or outd is None or not outd.endswith('\n'):
+            self.fail(f'export of pipeline {src!r} ({fmt}) to stdout failed', rc=rcd, stderr=errd[-400:])
+            self.trace.append(('xfile', None)); return
+        doc = outd[:-1]                                  # `output!` prints the document followed by one newline
+        other = 'yaml' if fmt == 'json' else 'json'
+        x1 = self.export(src, other)[1]
+        path = os.path.join(self.sb.base, 'xf', slot)
+        os.makedirs(os.path.dirname(path), exist_ok=True)
+        if pre is not None:
+            prepare_path(path, pre, doc, (x1 or '')[:-1], fmt)
+        before = path_state(path)
+        explicit = ['--format', fmt] if os.path.splitext(slot)[1].lstrip('.') != fmt else []
+        rc, out, err = self.sb.x('pipeline', '-p', src, 'export', '--file', path, *explicit)
+        after = path_state(path)
+        rel = ('dir' if before[0] == 'dir' else 'absent' if before[1] is None else
+               'longer' if len(before[1]) > len(doc.encode()) else 'equal' if len(before[1]) == len(doc.encode()) else 'shorter')
+        for key in (f'export-path:{pre or "as-left"}:{fmt}', f'export-path-old:{rel}:{fmt}', f'export-path-kind:{before[0]}'):
+            self.counts[key] = self.counts.get(key, 0) + 1
+        if before[0] == 'dir':
+            if rc == 0:
+                self.fail(f'`export --file` onto a directory was accepted (rc 0) for pipeline {src!r}')
+            if after != before:
+                self.fail(f'the refused `export --file` onto a directory changed it', before=str(before)[:300], after=str(after)[:300])
+            if self.names()[2] != list0:
+                self.fail('the refused `export --file` onto a directory changed `pipeline list`')
+            self.trace.append(('xfile', None)); return
+        if rc != 0:
+            if pre == 'readonly' and os.geteuid() != 0 and after == before:
+                self.trace.append(('xfile', None)); return     # refused without damage (never as root)
+            self.fail(f'`export --file` of pipeline {src!r} ({fmt}) onto a path that held: {pre or "what the previous export left"} failed', rc=rc, stderr=err[-400:])
+            self.trace.append(('xfile', None)); return
+        new = after[1]
+        self.writes.append({'pre': pre or 'as-left', 'fmt': fmt, 'old': before[1], 'doc': doc.encode(), 'new': new, 'scenario': self.sc['id'], 'slot': slot})
+        if new != doc.encode():
+            nb, db = new or b'', doc.encode()
+            k = next((i for i, (a, b) in enumerate(zip(nb, db)) if a != b), min(len(nb), len(db)))
+            self.fail(f'the file written by `export --file` is not the document `export --format {fmt}` prints for the same pipeline {src!r} '
+                      f'(the path held before: {pre or "the previous export to it"}, {len(before[1]) if before[1] is not None else "no"} bytes): '
+                      f'file {len(nb)} bytes, document {len(db)} bytes, first difference at byte {k}',
+                      file_from_there=nb[k:k + 600].decode('utf-8', 'backslashreplace'), document_from_there=db[k:k + 200].decode('utf-8', 'backslashreplace'))
+        rc2, out2, err2 = self.sb.x('pipeline', '-p', dst, 'import', '--file', path, *explicit)
+        if rc2 != 0:
+            self.fail(f'import of the file `export --file` wrote for {src!r} as {dst!r} ({fmt}; the path held before: {pre or "the previous export to it"}) failed',
+                      rc=rc2, stderr=err2[-400:], file=(new or b'')[:1500].decode('utf-8', 'backslashreplace'))
+            self.trace.append(('xfile', {'export1': doc, 'fmt': fmt, 'import_ok': False, 'export2': None, 'list': rows0,
+                                         'export1_json': x1 if fmt != 'json' else None, 'export2_json': None})); return
+        text2, x2, rows1 = self._after_import(src, dst, fmt, f'file over {pre or "previous export"}', doc, x1, names0, snap0, watched)
+        self.trace.append(('xfile', {'export1': doc, 'fmt': fmt, 'import_ok': True, 'export2': text2, 'list': rows1,
+                                     'export1_json': x1 if fmt != 'json' else None, 'export2_json': x2 if fmt != 'json' else None}))
 
     def refuse(self, src, dst, fmt):
         names0, rows0, list0 = self.names()
@@ -648,6 +876,9 @@ class Mirror:
             elif k == 'roundtrip':
                 out += [f'shuf {shuf[i % 3]}', f'export {t(op[1])}', f'import {t(op[2])} {1 if op[5] else 0}', f'shuf {shuf[(i + 1) % 3]}',
                         f'export {t(op[2])}', 'list']
+            elif k == 'xfile':          # the file is the document (C14_export_file_is_the_document): a round trip; a directory: nothing happens
+                out += [''] if op[5] == 'directory' else [f'shuf {shuf[i % 3]}', f'export {t(op[1])}', f'import {t(op[2])} 0', f'shuf {shuf[(i + 1) % 3]}',
+                                                           f'export {t(op[2])}', 'list']
             elif k == 'refuse':
                 out += [f'export {t(op[1])}', f'import {t(op[2])} 0', 'list']
         return out
@@ -701,7 +932,9 @@ class Mirror:
                 out.append('')
             elif k == 'write':
                 out.append('')
-            elif k == 'roundtrip':
+            elif k == 'xfile' and op[5] == 'directory':
+                out.append('')
+            elif k in ('roundtrip', 'xfile'):
                 o = ob[1]
                 if o is None:
                     out += [None] * 6
@@ -777,6 +1010,7 @@ def judge(chk, results):
                 for o in op[3]: chk.count('out:' + o.variant)
             if op[0] == 'step': chk.count('when:' + str(op[4]))
             if op[0] == 'roundtrip': chk.count(f'roundtrip:{op[3]}:{op[4]}:{"overwrite" if op[5] else "new"}')
+        WRITES.extend(r.writes)
         chk.count('scenario:' + ('run' if sc['runnable'] else 'static') + (':git' if sc['git'] else ''))
         chk.count('family:' + sc.get('family', 'pools'))
         cs.count_strings(chk, scenario_strings(sc))
@@ -786,7 +1020,7 @@ def judge(chk, results):
         for k, *o in r.trace:
             if k == 'run':
                 chk.count('run:rc=%d' % o[0])
-        rts = [o for k, *o in r.trace if k == 'roundtrip' and o[0] and o[0]['import_ok']]
+        rts = [o for k, *o in r.trace if k in ('roundtrip', 'xfile') and o[0] and o[0]['import_ok']]
         if rts and any(len(json.loads(json_of(o[0], 'export1') or '{"steps":[]}')['steps']) > 0 for o in rts):
             chk.nontrivial.add(hashlib.sha1(json.dumps([enc_op(o) for o in sc['ops']], sort_keys=True).encode()).hexdigest())
         if r.oracle:
@@ -844,6 +1078,7 @@ def judge_docs(chk, results):
             if op[0] == 'roundtrip': chk.count(f'roundtrip:{op[3]}:{op[4]}:{"overwrite" if op[5] else "new"}')
         for k_, n_ in r.counts.items():
             chk.count(k_, n_)
+        WRITES.extend(r.writes)
         count_blank_roundtrips(chk, sc, r)
         inj = next((o for k, *o in r.trace if k == 'inject'), None)
         if inj is None or inj[0] != 0:
@@ -971,11 +1206,15 @@ def signature(failure_texts, sc):
     sig = {'kind': 'other'}
     if 'without --overwrite was accepted' in txt: sig['kind'] = 'overwrite-not-refused'
     elif 'changed the export of pipeline' in txt: sig['kind'] = 'other-pipeline-changed'
+    elif 'is not the document' in txt: sig['kind'] = 'export-file-is-not-the-document'
+    elif 'onto a directory' in txt: sig['kind'] = 'export-onto-directory'
     elif 'differs from the export' in txt: sig['kind'] = 'roundtrip-differs'
     elif 'failed' in txt: sig['kind'] = 'command-failed'
     sig['formats'] = sorted({op[3] for op in ops if op[0] == 'roundtrip'})
     sig['channels'] = sorted({op[4] for op in ops if op[0] == 'roundtrip'})
     sig['after_run'] = any(op[0] == 'run' for op in ops)
+    if any(op[0] == 'xfile' for op in ops):
+        sig['export_path_states'] = sorted({op[5] or 'as-left' for op in ops if op[0] == 'xfile'})
     if sc.get('keep_region') and sig['kind'] == 'roundtrip-differs' and sig['formats'] == ['yaml'] and sig['channels'] == ['pipe']:
         sig['region'] = 'yaml-stdout-ends-in-keep-scalar'
     return sig
@@ -1019,6 +1258,7 @@ def minimise(chk, xvc, order, base, sc, kind, want):
 
 
 MODEL = [None]
+WRITES = []          # `export --file` observations of the current run (stream export-file)
 PROPOSED_FINDINGS = os.path.join(VERIF, 'lib', 'c14_known_findings.json')
 
 
@@ -1049,6 +1289,24 @@ def corpus_scenarios():
     D, O = pc.Dep, pc.Out
     rts = lambda src, tag, combos: [('roundtrip', src, f'{tag}{i}', f, v, False) for i, (f, v) in enumerate(combos)]     # noqa: E731
     c = []
+    # seeded C14-4, demo scenario 1 (YAML): export, remove the last step, export again to the same path, import that file
+    demo = [('new', 'p', None), ('step', 'p', 'prepare', 'cat data.txt > prepared.txt', None), ('dep', 'p', 'prepare', [D('File', path='data.txt')]),
+            ('out', 'p', 'prepare', [O('File', 'prepared.txt')]), ('step', 'p', 'train', 'echo training', 'always'), ('dep', 'p', 'train', [D('Step', name='prepare')])]
+    c.append({'id': 'corpus-export-again-after-step-remove-yaml', 'runnable': False, 'git': False, 'family': 'corpus', 'ops': demo + [
+        ('xfile', 'p', 'q0', 'yaml', 'p.yaml', 'absent'), ('rmstep', 'p', 'train'), ('xfile', 'p', 'q', 'yaml', 'p.yaml', None)]})
+    # demo scenario 2 (JSON): the path holds the export of another, larger pipeline
+    c.append({'id': 'corpus-export-over-a-larger-pipeline-json', 'runnable': False, 'git': False, 'family': 'corpus', 'ops': demo + [
+        ('new', 'big', None)] + [('step', 'big', f's{i}', f'echo {i}', None) for i in (1, 2, 3)] + [
+        ('xfile', 'big', 'r0', 'json', 'shared.json', 'absent'), ('xfile', 'p', 'r', 'json', 'shared.json', None)]})
+    states = [x for x in PRE_STATES if x != 'readonly' or os.geteuid() == 0]      # without root a read-only file refuses the export
+    # every state of the export path once, both formats; remove the first step / shorten a command between two exports to one path; YAML over JSON
+    for fmt in ('yaml', 'json'):
+        for k in range(0, len(states), 4):
+            c.append({'id': f'corpus-export-path-states-{fmt}-{k // 4}', 'runnable': False, 'git': False, 'family': 'corpus', 'ops': demo + [
+                ('xfile', 'p', f'{fmt[0]}{k + i}', fmt, f'st{k + i}.{fmt}', pre) for i, pre in enumerate(states[k:k + 4])]})
+    c.append({'id': 'corpus-export-path-edits', 'runnable': False, 'git': False, 'family': 'corpus', 'ops': demo + [
+        ('xfile', 'p', 'x0', 'json', 'x.txt', 'absent'), ('xfile', 'p', 'x1', 'yaml', 'x.txt', None), ('update', 'p', 'train', ':', None),
+        ('xfile', 'p', 'x2', 'yaml', 'x.txt', None), ('rmstep', 'p', 'prepare'), ('xfile', 'p', 'x3', 'yaml', 'x.txt', None), ('xfile', 'p', 'x4', 'json', 'x.txt', None)]})
     # seeded C14-1, minimised: a step command and a generic command with an empty line (literal block scalar `|-` with a blank line)
     c.append({'id': 'corpus-blank-line-in-command', 'runnable': False, 'git': False, 'family': 'corpus', 'ops': [
         ('new', 'src', None), ('step', 'src', 'report', 'echo a\n\necho b', None),
@@ -1274,11 +1532,107 @@ def shrink_reader_case(chk, xvc, model, rinfo, base, c, info):
     return (c,) + tuple(info)
 
 
+# ------------------------------------------------------------------------------------------------
+# the export-file correspondence: (what the path held, the document) -> what the path holds afterwards
+
+OPEN_RE = re.compile(r'\b(openat|open|creat)\((?:AT_FDCWD(?:<[^>]*>)?, )?"([^"]*)"(?:, ([A-Z_|0-9a-z]+))?')
+
+
+def observe_export_open(chk, xvc, base):
+    """one traced `xvc pipeline export --file P` over an existing longer file: with which flags is P opened, is it truncated otherwise?
+    -> {'create': bool, 'truncate': bool, 'calls': [...]} or None when strace is not usable"""
+    if not shutil.which('strace'):
+        return None
+    sb = Sandbox(base, 'openflags', xvc)
+    try:
+        if sb.init(git=False)[0] != 0:
+            return None
+        target = os.path.join(sb.base, 'traced-export.yaml')
+        with open(target, 'w') as h:
+            h.write('# an older, longer file\n' * 40)
+        tr = os.path.join(sb.base, 'trace.txt')
+        rc, out, err = sb.run(['strace', '-f', '-o', tr, '-e', 'trace=openat,open,creat,truncate,ftruncate', sb.xvc, 'pipeline', 'export', '--file', target])
+        if rc != 0 or not os.path.exists(tr):
+            return None
+        calls, flags, trunc_call = [], set(), False
+        for line in open(tr, errors='replace'):
+            if 'traced-export.yaml' in line:
+                m = OPEN_RE.search(line)
+                if m:
+                    f = set((m.group(3) or '').split('|')) | ({'O_WRONLY', 'O_CREAT', 'O_TRUNC'} if m.group(1) == 'creat' else set())
+                    if f & {'O_WRONLY', 'O_RDWR'}:
+                        flags |= f
+                        calls.append(f'{m.group(1)}(.., {"|".join(sorted(f - {"O_CLOEXEC"}))})')
+                elif re.search(r'\btruncate\(', line):
+                    trunc_call = True; calls.append('truncate(..)')
+            elif re.search(r'\bftruncate\(', line) and calls:
+                calls.append('ftruncate(..)?')
+        if not calls:
+            return None
+        return {'create': 'O_CREAT' in flags, 'truncate': 'O_TRUNC' in flags or trunc_call, 'calls': calls[:6]}
+    finally:
+        sb.cleanup()
+
+
+def bytes_tok(b):
+    return 'A' if b is None else ('.'.join(map(str, b)) or '-')
+
+
+def export_file_stream(chk, xvc, model, base, winfo):
+    """every `export --file` of the run: the content the model of the code predicts (`ExportFile.writeFile old doc`, i.e. the document)
+    and the content open(2)+write_all with the OBSERVED flags gives (`ExportFile.openWrite`) against the bytes found in the file"""
+    st = chk.tie['streams'].setdefault('export-file', {'cases': 0, 'lines': 0, 'disagreements': 0, 'old_longer': 0, 'observed_open': None})
+    obs = observe_export_open(chk, xvc, base)
+    st['observed_open'] = obs
+    if obs is None:
+        chk.notes.append('strace is not usable here: the open(2) flags of `export --file` were not observed (the translator and the content comparison remain)')
+    elif (obs['create'], obs['truncate']) != (True, True):
+        st['disagreements'] += 1
+        chk.disagreement('export-file', {'traced': 'xvc pipeline export --file <existing longer file>'}, obs,
+                         {'create': True, 'truncate': True, 'model': 'ExportFile.fsWrite (std::fs::write)'},
+                         'the flags the export path is opened with are not those of fs::write, which ExportFile.writeFile assumes')
+    if not WRITES:
+        return
+    lines = []
+    for w in WRITES:
+        lines.append(f"code {bytes_tok(w['old'])} {bytes_tok(w['doc'])}")
+        if obs:
+            lines.append(f"{int(obs['create'])} {int(obs['truncate'])} {bytes_tok(w['old'])} {bytes_tok(w['doc'])}")
+    rc, ans, err = run_lines(model, ['writefile'], lines)
+    if rc != 0 or len(ans) != len(lines):
+        chk.disagreement('export-file', [], f'model driver rc={rc}, {len(ans)} answers for {len(lines)} requests', err[-500:], 'process failure')
+        return
+    per = 2 if obs else 1
+    worst = None
+    for i, w in enumerate(WRITES):
+        st['cases'] += 1
+        st['lines'] += per
+        if w['old'] is not None and len(w['old']) > len(w['doc']):
+            st['old_longer'] += 1
+        real = bytes_tok(w['new'])
+        for j in range(per):
+            if ans[i * per + j] != real:
+                st['disagreements'] += 1
+                cand = (len(w['doc']) + len(w['old'] or b''), j, w, ans[i * per + j])
+                if worst is None or cand[:2] < worst[:2]:
+                    worst = cand
+                break
+    if worst:
+        _, j, w, a = worst
+        dec = lambda t: None if t in ('A', 'enoent') else bytes(int(x) for x in t.split('.')).decode('utf-8', 'backslashreplace') if t != '-' else ''   # noqa: E731
+        chk.disagreement('export-file', {'scenario': w['scenario'], 'slot': w['slot'], 'format': w['fmt'], 'path_held_before': w['pre'],
+                                          'old_content': None if w['old'] is None else w['old'].decode('utf-8', 'backslashreplace')[:3000],
+                                          'document': w['doc'].decode('utf-8', 'backslashreplace')[:3000]},
+                         (w['new'] or b'').decode('utf-8', 'backslashreplace')[:3000], (dec(a) or '')[:3000],
+                         'model of the code: the file is the document (C14_export_file_is_the_document)' if j == 0 else
+                         'model of open+write_all with the observed flags (ExportFile.openWrite)')
+
+
 def run(chk: Check):
     quick = chk.tier == 'quick'
     model = chk.lean('XvcPipeData', 'XvcPipeData.Props.C14', exe='pipedata',
                      extra_modules=['XvcPipeData.Schema', 'XvcPipeData.SchemaLemmas', 'XvcPipeData.SchemaReach', 'XvcPipeData.Reader',
-                                    'XvcPipeData.ReaderLemmas'])
+                                    'XvcPipeData.ReaderLemmas', 'XvcPipeData.ExportFile'])
     MODEL[0] = model if model and os.path.exists(model) else None
     xvc = chk.build_xvc()
     chk.trusted_base += [
@@ -1292,6 +1646,7 @@ def run(chk: Check):
         'pipeline names are unique (hypothesis UniqueNames, an invariant of new/import/step commands: C14_reachable_invariants; `pipeline update --rename` onto an existing name is outside the property and not generated)',
         'pipeline names in the generated cases contain no newline; step names, commands, paths, globs, regexes, queries, parameter keys and values, recorded lines are arbitrary UTF-8 (NUL only in injected documents)',
         'reader theorems: the input is a sequence of well-formed UTF-8 scalars and ill-formed bytes, 0x0A is never part of either kind of multi-byte unit; I/O errors other than InvalidData are not modelled (observed: a persistent read error on stdin, e.g. a directory, makes the `input.lines()` loop spin forever)',
+        'export --file: the path holds a regular file or nothing (ExportFile.writeFile); a symbolic link is followed, a directory refused by open(2) - both observed by the oracle, not modelled; write errors (ENOSPC, EIO) are outside the model',
         'every text `xvc pipeline export` writes is free of "\\r\\n" (both encoders escape CR; counted on every export of the run as export-text:*), YAML exports end with a newline',
     ]
     try:
@@ -1312,8 +1667,15 @@ def run(chk: Check):
         chk.proof['broken'].append({'stage': 'translator', 'errors': [str(e)]})
         rinfo = {'file': 'file', 'stdin': 'stdin', 'read': {}}
     chk.extra['reader'] = rinfo
-    nstatic, nrun, ncli, nlines, ndoc, nreader = (32, 20, 24, 8, 28, 24) if quick else (300, 160, 120, 40, 160, 120)
-    chk.extra['rule'] = (f'corpus (seeded C14-1 minimised: blank line in a step / generic command; blank lines at the ends; a document with blank lines in every '
+    try:
+        winfo = cs.extract_export_write(REPO)
+    except cs.ReaderTieBroken as e:
+        chk.proof['broken'].append({'stage': 'translator', 'errors': [str(e)]})
+        winfo = {'write': None, 'read': {}}
+    chk.extra['export_write'] = winfo
+    del WRITES[:]
+    nstatic, nrun, ncli, nlines, ndoc, nreader, npath = (32, 20, 24, 8, 28, 24, 16) if quick else (300, 160, 120, 40, 160, 120, 160)
+    chk.extra['rule'] = (f'corpus (seeded C14-4 demos: export again to the same path after `step remove`, export over the export of a larger pipeline, every path state once; seeded C14-1 minimised: blank line in a step / generic command; blank lines at the ends; a document with blank lines in every '
                          f'string field; stdout-keep-scalar; non-finite TOML) first; then {nstatic} generated repositories that are never run (1-3 pipelines incl. `default`, '
                          '0-4 steps each, names/commands/paths from pools with quotes, newlines, CR, tabs, non-ASCII, YAML-significant tokens; all 11 offline dependency '
                          f'kinds, 3 output kinds, 3 --when modes; step update / remove / re-create; refused commands) + {nrun} repositories whose pipelines are executed '
@@ -1322,7 +1684,11 @@ def run(chk: Check):
                          'brought into a generated state by importing a generated JSON document (all 12 dependency kinds with all fields, strings of arbitrary content in '
                          'every string field); in each 1-5 export->import->export round trips (json|yaml, --file|stdin|stdout-to-stdin pipe), refusal probes and '
                          f'--overwrite imports (also onto the exported pipeline itself), pipeline delete; reader stream: {nreader} generated values emitted as YAML / JSON '
-                         'texts (clean, CRLF, no final newline, a line that is not UTF-8) to the model reader and to the real import. Non-trivial: a scenario with an '
+                         f'texts (clean, CRLF, no final newline, a line that is not UTF-8) to the model reader and to the real import; {npath} export-path scenarios '
+                         '(+ one probe in 40 % of the command-line-string and document scenarios): `export --file P` with P absent / empty / holding a shorter, equally long or '
+                         'longer document (bigger pipeline, same pipeline before remove-last-step / remove-first-step / shortened command, the other format) / garbage / '
+                         'read-only / a symbolic link (also dangling) / a directory, sequences export -> edit -> export to the SAME path -> import -> export; the bytes of P '
+                         'must be the document `export` prints to stdout. Non-trivial: a scenario with an '
                          'accepted round trip of a pipeline that has steps; distinct by op list.')
     base = os.path.join(chk.scratch, 'repos')
     os.makedirs(base, exist_ok=True)
@@ -1338,6 +1704,7 @@ def run(chk: Check):
     scs += [gen_scenario(chk.rng, n0 + i, True) for i in range(nrun)]; n0 += nrun
     scs += [gen_cli_strings(chk.rng, n0 + i) for i in range(ncli)]; n0 += ncli
     scs += [gen_lines_run(chk.rng, n0 + i) for i in range(nlines)]; n0 += nlines
+    scs += [gen_export_path(chk.rng, n0 + i) for i in range(npath)]; n0 += npath
     docs = [gen_doc_scenario(chk.rng, n0 + i, order) for i in range(ndoc)]
     if not bad:          # a corpus failure is the answer; the generated stream would only repeat it
         for i in range(0, len(scs), 64):
@@ -1353,6 +1720,7 @@ def run(chk: Check):
         rdocs = [sc['ops'][0][2] for sc in docs[:nreader]]
         rdocs += [cs.gen_doc(chk.rng, order, 'x') for _ in range(nreader - len(rdocs))]
         reader_stream(chk, xvc, MODEL[0], rinfo, rdocs, base)
+        export_file_stream(chk, xvc, MODEL[0], base, winfo)
     report(chk, xvc, order, base, bad)
     return chk.finish()
 
